@@ -514,6 +514,13 @@ impl Fw {
                 }
                 _ => adm.push(None),
             }
+            // a decision taken from a MAC claim is remembered like any other (C11): it may be reused until it expires,
+            // its peer goes, its claim is withdrawn, or the address is learned from traffic
+            if let Some(e) = self.ref_cache.get(&key) {
+                if peers.contains(&e.peer) && now <= e.expiry + 2 && e.expiry >= self.last_hk[i] && !adm.contains(&Some(e.peer)) {
+                    adm.push(Some(e.peer));
+                }
+            }
             if l.is_none() {
                 if let Some((p, t)) = self.maybe_learned.get(&key).copied() {
                     if peers.contains(&p) && now <= t + self.switch_timeout + 2 {
@@ -539,6 +546,16 @@ impl Fw {
                 };
                 let p = self.or_c10(Focus::C13, self.tap);
                 return self.viol(w, p, "learning", sig, format!("n{} forwards destination {:?} to {:?}; reference learning table says {:?} (entry {:?}, now {}, switch timeout {}, last sweep {})", i, dst_b, hop, adm, l, now, self.switch_timeout, self.last_hk[i]));
+            }
+            if let Some(h) = hop {
+                let from_claim = lpm_peers.contains(&h) && !matches!(l, Some((p, _)) if p == h);
+                let held = self.ref_cache.get(&key).map(|e| e.peer == h && now <= e.expiry).unwrap_or(false);
+                if from_claim && !held {
+                    let claim_exp = live_claims.iter().filter(|c| c.1 == h && Some(c.0.prefix_len) == best && range_matches(&addr_bytes(&c.0.base), c.0.prefix_len, &dst_b)).map(|c| c.2).max().unwrap_or(now);
+                    self.ref_cache.insert(key.clone(), RefCacheEntry { peer: h, expiry: (now + self.switch_timeout).min(claim_exp) });
+                }
+            } else {
+                self.ref_cache.remove(&key);
             }
         }
         // --- C10: conservation for this interface read
@@ -631,6 +648,7 @@ impl Fw {
             if self.learning {
                 if let Some((s, _)) = self.parse(&data) {
                     self.maybe_learned.remove(&(j, s.clone()));
+                    self.ref_cache.remove(&(j, s.clone()));
                     self.learned.insert((j, s), (src, now));
                     w.count("c13_addresses_learned");
                 }
